@@ -4028,15 +4028,19 @@ impl Collection {
                     // return the same document repeatedly and the duplicates
                     // would consume the caller's `limit`. First-occurrence
                     // order is preserved, matching the other branches.
+                    //
+                    // The scan walks KEY order, which says nothing about id
+                    // order, so it cannot stop after `limit` hits: the first
+                    // `limit` ids it meets are not the smallest (or largest)
+                    // ids of the match set unless ids happen to follow the
+                    // keys. Like the composite arms, collect the full match
+                    // set and let the caller trim the requested end.
                     let mut rt: UniqueVec<DocumentId> =
                         UniqueVec::with_capacity(Self::reserve_hint(limit));
                     index.try_range_query_ids(filter, order.is_descending(), |ids| {
                         for id in ids {
                             if candidates.is_none_or(|s| s.contains(id)) {
                                 rt.push(*id);
-                                if limit > 0 && rt.len() >= limit {
-                                    return false;
-                                }
                             }
                         }
                         true
